@@ -1186,6 +1186,9 @@ func (b *ASTBuilder) buildDict(tsNode *sitter.Node) *Node {
 			if value := b.getChildByFieldName(child, "value"); value != nil {
 				node.AddChild(b.buildNode(value))
 			}
+		} else if child != nil && child.Type() == "dictionary_splat" {
+			// {**other}: the unpacked expression is part of the literal too
+			node.AddChild(b.buildNode(child))
 		}
 	}
 
@@ -1319,9 +1322,14 @@ func (b *ASTBuilder) buildYield(tsNode *sitter.Node) *Node {
 	node := NewNode(NodeYield)
 	node.Location = b.getLocation(tsNode)
 
+	// The grammar has one node type for both forms: "yield x" and "yield from x"
 	childCount := int(tsNode.ChildCount())
 	for i := 0; i < childCount; i++ {
 		child := tsNode.Child(i)
+		if child != nil && child.Type() == "from" {
+			node.Type = NodeYieldFrom
+			continue
+		}
 		if child != nil && child.Type() != "yield" {
 			node.Value = b.buildNode(child)
 			break
